@@ -63,6 +63,19 @@ def _region_map(rng, m):
     return out
 
 
+class _Deadline:
+    """Relative deadline for `explore.coexplore` (which compares `time.time() > deadline`): the clock starts at the
+    first comparison, i.e. when the exploration starts in its worker, not when the job list is built."""
+    def __init__(self, budget_s):
+        self.budget_s = budget_s
+        self.end = None
+
+    def __lt__(self, now):
+        if self.end is None:
+            self.end = now + self.budget_s
+        return self.end < now
+
+
 def _checked(mk, seed):
     """Build the instance and tie its compiled evaluator to the repository's Evaluator before using it."""
     def make():
@@ -90,14 +103,14 @@ def jobs(tier, seed=0):
     cap = 50000 if quick else 400000
     LIM = 2
 
-    t_end = time.time() + (150 if quick else 420)      # no single exploration may run away (recorded as not exhaustive)
+    budget = 150 if quick else 420      # no single exploration may run away (it is then recorded as not exhaustive)
 
     heavy = ("2x2 cover w", "joint", "1->3", "3->1 w", "Crossbar 2x2", "3x3", "3x2", "2x3")
     PRIO = {}
 
     def A(name, mk, alpha, limit=LIM, **kw):
         J.append(Job("A", _checked(lambda: mk(name=name, alphabet=alpha(), limit=limit, **kw), seed),
-                     max_states=cap, deadline=t_end))
+                     max_states=cap, deadline=_Deadline(budget)))
         PRIO[id(J[-1])] = 0 if any(h in name for h in heavy) else 1     # long explorations are started first
 
     def B(name, mk, cycles=None, **kw):
@@ -142,6 +155,8 @@ def jobs(tier, seed=0):
                             lvl = 2
                         elif n * m == 4:
                             lvl = 2 if (kind == "Shared" and not full) or not quick else 1
+                            if kind == "Crossbar" and mapname == "hole":
+                                lvl = 1         # 24576 letters x ~90 states at level 2
                         else:
                             lvl = 1
                         if quick and full and kind == "Crossbar":
@@ -155,7 +170,7 @@ def jobs(tier, seed=0):
                               lambda n=n, m=m, d=d, full=full, addrs=addrs, lvl=lvl:
                                   random.Random(seed * 13 + n * 5 + m).sample(
                                       small_alphabet(n, m, addrs=addrs, direction=d, full=full, level=lvl),
-                                      6000 if mk is make_shared else 1200))
+                                      6000 if mk is make_shared else (1200 if n * m < 9 else 500)))
                         else:
                             A(name, lambda n=n, decs=decs, full=full, mk=mk, **k: mk(n, decs, full=full, **k),
                               lambda n=n, m=m, d=d, full=full, addrs=addrs, lvl=lvl:
@@ -165,7 +180,7 @@ def jobs(tier, seed=0):
             if quick and (full or kind == "Crossbar"):
                 continue
             _, decs, addrs = MAPS[2][0]
-            cnt = 300 if quick else (6000 if kind == "Shared" else 1500)
+            cnt = 300 if quick else (4000 if kind == "Shared" else 500)
             A("%s%s 2x2 cover joint (single-direction core + %d sampled write x read letters)" % (T, kind, cnt),
               lambda decs=decs, full=full, mk=mk, **k: mk(2, decs, full=full, **k),
               lambda full=full, addrs=addrs, cnt=cnt: _joint_alphabet(2, 2, addrs, full, seed, cnt),
